@@ -15,6 +15,17 @@ def P(src, variant, name, args=None, tiers=('quick', 'thorough'), tier_args=None
 
 
 CHECKS = {
+    'C02': {
+        'engine': 'langx',
+        'rule': 'documented-grammar templates vs reference interpreter',
+        'parts': [
+            P('props/C02.cpp', 'asan', 'docs-asan', tier_args={'quick': ['--nodes', '2'], 'thorough': ['--nodes', '3']}),
+            P('props/C02.cpp', 'fast', 'docs-fast-sse2', tier_args={'quick': ['--nodes', '3'], 'thorough': ['--nodes', '4']}),
+            P('props/C02.cpp', 'fast+avx2', 'docs-fast-avx2', tier_args={'quick': ['--nodes', '2'], 'thorough': ['--nodes', '3']}),
+            P('props/C02.cpp', 'fast+nosimd', 'docs-fast-scalar', tier_args={'quick': ['--nodes', '2'], 'thorough': ['--nodes', '3']}),
+        ],
+        'floor': {'quick': 100, 'thorough': 100},
+    },
     'C16': {
         'engine': 'seqx',
         'rule': 'allocation ledger over operation histories, input spaces and tag-cache lifetimes',
